@@ -61,6 +61,7 @@ PD == [ e1 |-> P(100, <<65001, 65002>>, 0, TRUE, 11, 0, <<>>, 1, 1, {}, 0),     
         dUnk  |-> [P(100, <<65020>>, 0, TRUE, 30, 0, <<>>, 21, 21, {}, 0) EXCEPT !.unk = TRUE],    \* carries an unknown transitive attribute
         dOid  |-> P(100, <<65020>>, 0, FALSE, 30, 6, <<7>>, 21, 21, {}, 0),
         dOid2 |-> P(100, <<65020>>, 0, FALSE, 30, 8, <<7>>, 21, 21, {}, 0),
+        dCl2  |-> P(100, <<65020>>, 0, FALSE, 30, 6, <<7, 9>>, 21, 21, {}, 0),         \* same CLUSTER_LIST length as dCl, other content
         dCl   |-> P(100, <<65020>>, 0, FALSE, 30, 6, <<7, 8>>, 21, 21, {}, 0) ]                                                               \* static route (redistributed)
 Rec(n) == PD[n]
 
